@@ -300,6 +300,11 @@ class Model:
 
         if normalise_call_conventions(self, CALL_CONVENTIONS):
             self._reindex()
+        from .inline import desugar_next_search, sink_found_actions as _sink
+
+        if self.changed_functions and desugar_next_search(self, self.changed_functions):
+            _sink(self, self.changed_functions)
+            self._reindex()
         self.walrus_desugared = desugar_walrus(self, self.changed_functions) if self.changed_functions else []
         if self.walrus_desugared:
             self._reindex()
@@ -377,6 +382,10 @@ class Model:
             if self.objects_scalarised:
                 self._reindex()
             if fold_after_inlining(self, self.inlined):
+                self._reindex()
+            from .inline import sink_found_actions
+
+            if sink_found_actions(self, set(self.inlined) | set(self.changed_functions)):
                 self._reindex()
             self.absorbed = drop_absorbed_helpers(self, FUNCTIONS)
             if self.absorbed:
